@@ -832,6 +832,14 @@ def pipeline_shape(src: Path) -> dict:
         raise TranslateError("Pipeline.train: expected one `for node in self.nodes()` loop")
     loop = loops[0]
     nodevar = loop.target.id
+    # ... and `self.nodes()` is every node of the graph, whatever it is wired to: a walk from the declared outputs
+    # (default node, aliases) or any other selection would leave components on side branches untrained
+    nfns = [n for n in cls[0].body if isinstance(n, ast.FunctionDef) and n.name == "nodes"]
+    if len(nfns) != 1:
+        raise TranslateError("Pipeline.nodes not found exactly once")
+    nbody = strip_doc(nfns[0].body)
+    if len(nbody) != 1 or not isinstance(nbody[0], ast.Return) or nbody[0].value is None or ast.unparse(nbody[0].value) != "list(self._nodes.values())":
+        raise TranslateError("Pipeline.nodes: expected `return list(self._nodes.values())` (every node of the graph)")
     if len(loop.body) != 1 or not isinstance(loop.body[0], ast.Match) or ast.unparse(loop.body[0].subject) != nodevar:
         raise TranslateError("Pipeline.train: loop body is not a single `match node`")
     cases = loop.body[0].cases
@@ -865,7 +873,7 @@ def pipeline_shape(src: Path) -> dict:
     spawns = [x for x in ast.walk(fn) if isinstance(x, ast.Call) and isinstance(x.func, ast.Attribute) and x.func.attr == "spawn"]
     if len(spawns) != 1:
         raise TranslateError("Pipeline.train: expected exactly one spawn call")
-    return {"plan": plan, "spawn_width": 1, "spawn_pick": 0}
+    return {"plan": plan, "spawn_width": 1, "spawn_pick": 0, "all_nodes": True}
 
 
 # ---------------------------------------------------------------------------------------------
@@ -924,6 +932,8 @@ def to_gallina(info: dict) -> str:
     out.append("  end.\n")
     out.append(f"Definition pt_spawn_width : nat := {p['spawn_width']}.   (* seed.spawn(1) *)\n")
     out.append(f"Definition pt_spawn_pick : nat := {p['spawn_pick']}.    (* [0] *)\n")
+    out.append("(* the training loop is `for node in self.nodes()` and Pipeline.nodes returns every node of the graph, whatever it is wired to *)\n")
+    out.append(f"Definition pt_iterates_all_nodes : bool := {'true' if p['all_nodes'] else 'false'}.\n")
     out.append("(* TrainingOptions.random_generator is `return random_generator(self.rng)`: the generator a component obtains is\n"
                "   made from exactly the rng it was handed *)\n")
     out.append(f"Definition options_rng_passthrough : bool := {'true' if info['options_passthrough'] else 'false'}.\n")
